@@ -82,9 +82,41 @@ class VirtualClock:
         return patched(*triples)
 
 
+_BINDINGS_CACHE = {}
+
+
+def _uniform_bindings(names, modules, package):
+    """[(module, attribute, numpy.random name)] to rebind; cached per number of loaded modules (the scan of
+    sys.modules is too slow to repeat for each of 10^5 executions; a module loaded later changes the key)"""
+    import sys
+    key = (names, tuple(id(m) for m in modules), package, len(sys.modules))
+    hit = _BINDINGS_CACHE.get(key)
+    if hit is not None and all(getattr(np.random, n) is f for n, f in hit[1]):
+        return hit[0]
+    names = [n for n in names if hasattr(np.random, n)]
+    real = {}
+    for n in names:
+        real.setdefault(id(getattr(np.random, n)), n)
+    mods = list(modules)
+    for name, m in list(sys.modules.items()):
+        if m is not None and (name == package or name.startswith(package + ".")) and m not in mods:
+            mods.append(m)
+    out = []
+    for m in mods:
+        for attr, val in list(vars(m).items()):
+            n = real.get(id(val))
+            if n is not None and getattr(np.random, n) is val:
+                out.append((m, attr, n))
+    out += [(np.random, n, n) for n in names]
+    _BINDINGS_CACHE.clear()
+    _BINDINGS_CACHE[key] = (out, [(n, getattr(np.random, n)) for n in names])
+    return out
+
+
 class ScriptedUniform:
-    """replacement for numpy.random.random_sample / rand: answers come from
-    `answer(label)` (an E2 choice point or a fixed cycle)."""
+    """replacement for the uniform entry points of the numpy global generator (random_sample / random / rand /
+    ranf / sample / uniform): answers come from `answer(draw_number)` (an E2 choice point or a fixed cycle).
+    `installed()` patches all of them at once; the single methods stay usable with `patched`."""
 
     def __init__(self, answer):
         self.answer = answer
@@ -103,3 +135,46 @@ class ScriptedUniform:
 
     def rand(self, *shape):
         return self.random_sample(shape if shape else None)
+
+    # the other spellings of "uniform numbers from the global generator"
+    def random(self, size=None):
+        return self.random_sample(size)
+
+    ranf = sample = random
+
+    def uniform(self, low=0.0, high=1.0, size=None):
+        """uniform(low, high, size) = low + (high - low) * u, one scripted answer per number drawn
+        (size None with array-like low/high broadcasts like numpy does)"""
+        if size is None:
+            shape = np.broadcast(np.asarray(low), np.asarray(high)).shape
+            size = shape if shape else None
+        u = self.random_sample(size)
+        return low + (np.asarray(high) - np.asarray(low)) * u if size is not None \
+            else float(low) + (float(high) - float(low)) * u
+
+    UNIFORM_NAMES = ("random_sample", "random", "rand", "ranf", "sample", "uniform")
+
+    def installed(self, *modules, package="pyphysim", seed=0, restore_state=True):
+        """Own every uniform draw of the library's use of the numpy GLOBAL generator however it is spelt:
+        np.random.random_sample / random / rand / ranf / sample / uniform are replaced in the numpy.random
+        module itself (covers `np.random.uniform(...)`), and every name in a loaded module of `package`
+        (plus the given modules) bound to one of those functions (covers `from numpy.random import rand`)
+        is rebound to this object.  The global generator is seeded with `seed` on entry, so that any draw
+        that is NOT scripted (normal, choice, ...) is at least deterministic; its state is restored on exit
+        (restore_state=False skips the ~70 us save/restore for explorers that install it 10^5 times)."""
+        import contextlib
+        bindings = _uniform_bindings(self.UNIFORM_NAMES, modules, package)
+        triples = [(m, attr, getattr(self, n)) for m, attr, n in bindings]
+
+        @contextlib.contextmanager
+        def ctx():
+            state = np.random.get_state() if restore_state else None
+            if seed is not None:
+                np.random.seed(seed)
+            try:
+                with patched(*triples):
+                    yield self
+            finally:
+                if state is not None:
+                    np.random.set_state(state)
+        return ctx()
